@@ -566,7 +566,10 @@ Section Scalar.
     deser_val re_match e ens rec ku ign f j =
     match f with FAnything => Ok j | _ => _ <- validate_weak re_match e f j ;; Ok j end.
   Proof.
-    intros Hs Hj. destruct f; try discriminate Hs; destruct j; try contradiction; reflexivity.
+    intros Hs Hj. destruct f; try discriminate Hs; destruct j; try contradiction; try reflexivity;
+      (* FEnumLit: Enum.deserialize raises ValueError only; raising it again changes nothing *)
+      cbn [deser_val validate_weak]; cbn beta iota;
+      match goal with |- context [if ?c then _ else _] => destruct c end; reflexivity.
   Qed.
 
   Lemma number_static_sign c v s x :
